@@ -3038,7 +3038,8 @@ def optimize_blockwise_fusion(expr):
                 seen.add(next._name)
 
                 group.append(next)
-                for dep_name in dependencies[next._name]:
+                # Sorted: set iteration order depends on the string hash seed
+                for dep_name in sorted(dependencies[next._name]):
                     dep = expr_mapping[dep_name]
 
                     stack_names = {s._name for s in stack}
